@@ -154,3 +154,21 @@ def _fragment_graphs(n_frag, type_sets, nested_variants=(False, True)):
                         yield dict(name=name, doc_text="\n".join(ops + frs) + "\n", ops=opnames, frag_types=types, edges=edges,
                                    nested=nested, tags={f"frags:{n_frag}", f"edges:{len(edges)}", f"root:{rootcfg}",
                                                         "nested_spread" if nested else "direct_spread"} | {f"ftype:{t}" for t in types})
+
+
+# ------------------------------------------------------------------ member-name catalogue (shared by C04 / C06 / C18)
+def name_catalogue():
+    import keyword
+    import pydantic
+    base = set(keyword.kwlist) | set(keyword.softkwlist) | {a for a in dir(pydantic.BaseModel) if not a.startswith("_")}
+    base |= {"name", "value", "mro", "self", "cls", "typename", "id", "type", "Any", "List", "Optional", "Field", "BaseModel", "Enum", "str", "int", "bool", "float", "Literal", "Annotated", "Upload", "None_"}
+    out = set()
+    for n in base:
+        out.add(n)
+        if "_" in n.strip("_"):
+            parts = n.split("_")
+            out.add(parts[0] + "".join(p.capitalize() for p in parts[1:]))   # model_dump -> modelDump
+            out.add("".join(p.capitalize() for p in parts))                   # ModelDump
+        else:
+            out.add(n.capitalize() if n.islower() else n.lower())
+    return sorted(x for x in out if re.fullmatch(r"[A-Za-z][A-Za-z0-9_]*", x))
